@@ -104,6 +104,17 @@ func (h *compHooks) onStore(g *goProg, a *AbsState, st *ssa.Store) {
 		})
 	case isHigh:
 	default:
+		// a length shifted into the high nibble of a token: 15 is the escape value that announces extension bytes, so a
+		// length stored there directly is at most 14
+		if b, isB := x.(*ssa.BinOp); isB && b.Op == token.SHL {
+			if k, isK := constUint(b.Y); isK && k == 4 {
+				lv := g.val(a, b.X)
+				g.coll.check("lenbyte", g.siteKey(st, "token-nibble"), g.prog.InstrPos(st), "a literal length stored directly in the token's high nibble is at most 14 (15 announces length-extension bytes that must follow)", a.st.maxLE(lv, qi(14)), func() string {
+					_, mx := a.st.max(lv)
+					return fmt.Sprintf("length %s can reach %s here: the token would announce extension bytes that are not written", lv.Str(g.tab), mx.String())
+				})
+			}
+		}
 		// the HC compressor's match length is 0 or >= 4 (a disjunction outside the convex domain): only the upper bound is armed there
 		g.coll.check("lenbyte", g.siteKey(st, "length-byte"), g.prog.InstrPos(st), "a computed byte stored into the block (token nibble, length terminator) is at most 254 (and not negative in the fast compressor): it is not truncated and a terminator is never 0xFF", a.st.maxLE(xv, qi(254)) && (h.hc || a.st.minGE(xv, qi(0))), func() string {
 			_, mx := a.st.max(xv)
@@ -625,7 +636,10 @@ func portableDecoderRulesImpl(c *Check, prefix string) {
 				return
 			}
 			if refs := call.Referrers(); refs != nil && len(*refs) > 0 {
-				return // the count itself is consumed (the general match copy): not decided here
+				// the count itself is consumed (the general match copy): not decided here. Its safety rests on
+				// count = mLen - offset*(mLen/offset) < offset, a relation the template domain does not carry across the
+				// doubling loop that precedes the copy (tried: the fact is available before the loop and lost at its head).
+				return
 			}
 			dist := dstOff.Sub(srcOff)
 			adv, what := n, "count"
@@ -828,10 +842,12 @@ func portableDecoderRulesImpl(c *Check, prefix string) {
 		c.RuleDoc["R04.7"] = "portable decoder: same-buffer copies whose count is not the cursor advance do not overlap their source"
 		c.RuleDoc["R04.9"] = "portable decoder: a length extension ends only with a byte below 255 (or an error): the loops that add source bytes to a length have no other exit"
 		ruleExtensionLoops(c, p, fn, "R04.9")
+		rulePortableEndsAfterMatch(c, p, fn, "R04.4")
 	default:
 		emitObls(c, coll, "go|", map[string]string{"result": prefix, "offset": prefix, "consumed": prefix, "nonempty": prefix, "overlap": prefix, "errexit": prefix})
 		if prefix != "R03" {
 			ruleExtensionLoops(c, p, fn, prefix)
+			rulePortableEndsAfterMatch(c, p, fn, prefix)
 		}
 	}
 }
@@ -1044,3 +1060,96 @@ func dstNonNilAtCallSiteImpl(c *Check, p *Program, rule string) bool {
 }
 
 var _ = types.Typ
+
+
+// rulePortableEndsAfterMatch: a block may end right after a match (the format
+// does not require a closing literal-only sequence, and the assembly decoders
+// accept such blocks: R04.4). In the portable decoder that means: from the head
+// of the sequence loop the success return is reachable without another byte of
+// the source being read. A loop that can only be left from inside a sequence
+// reads past the end instead and reports an error the other decoders do not.
+func rulePortableEndsAfterMatch(c *Check, p *Program, top *ssa.Function, rule string) {
+	var best *ssa.BasicBlock
+	bestSize := 0
+	for _, fn := range deepFuncs(top, 2) {
+		for _, h := range fn.Blocks {
+			body := map[*ssa.BasicBlock]bool{}
+			for _, pr := range h.Preds {
+				if !(pr.Index >= h.Index && h.Dominates(pr)) {
+					continue
+				}
+				body[h] = true
+				stack := []*ssa.BasicBlock{pr}
+				for len(stack) > 0 {
+					x := stack[len(stack)-1]
+					stack = stack[:len(stack)-1]
+					if body[x] {
+						continue
+					}
+					body[x] = true
+					stack = append(stack, x.Preds...)
+				}
+			}
+			if len(body) > bestSize {
+				best, bestSize = h, len(body)
+			}
+		}
+	}
+	if best == nil || bestSize < 8 {
+		c.Fail(rule, "go|decodeBlock#ends-after-match", p.Pos(top.Pos()), "the sequence loop of the portable decoder is resolved", "no loop of at least 8 blocks found in the decoder (anchor unresolved)")
+		return
+	}
+	fn := best.Parent()
+	rootIsSrc := func(v ssa.Value) bool {
+		for i := 0; i < 8; i++ {
+			switch x := v.(type) {
+			case *ssa.Slice:
+				v = x.X
+				continue
+			case *ssa.IndexAddr:
+				v = x.X
+				continue
+			}
+			break
+		}
+		prm, ok := v.(*ssa.Parameter)
+		return ok && len(fn.Params) >= 2 && prm == fn.Params[1]
+	}
+	readsSrc := func(in ssa.Instruction) bool {
+		switch x := in.(type) {
+		case *ssa.UnOp:
+			if x.Op == token.MUL {
+				if ia, ok := x.X.(*ssa.IndexAddr); ok && rootIsSrc(ia.X) {
+					return true
+				}
+			}
+		case *ssa.Slice:
+			// a re-slice of src with a low bound (src[si:]) is the start of a read
+			if x.Low != nil && rootIsSrc(x.X) {
+				return true
+			}
+		}
+		return false
+	}
+	success := func(in ssa.Instruction) bool {
+		r, ok := in.(*ssa.Return)
+		if !ok || len(r.Results) != 1 {
+			return false
+		}
+		res := r.Results[0]
+		if ld, isLd := res.(*ssa.UnOp); isLd && ld.Op == token.MUL {
+			for _, j := range in.Block().Instrs {
+				if st, isS := j.(*ssa.Store); isS && st.Addr == ld.X {
+					res = st.Val
+				}
+			}
+		}
+		if k, isK := res.(*ssa.Const); isK && k.Value != nil && k.Value.Kind() == constant.Int && k.Int64() < 0 {
+			return false
+		}
+		return in.Block() != fn.Recover
+	}
+	ok, _ := reachAvoid(fn, best.Instrs[0], success, readsSrc)
+	c.Sites++
+	c.Cond(ok, rule, "go|decodeBlock#ends-after-match", p.InstrPos(best.Instrs[0]), "from the head of the sequence loop the success return is reachable without reading another source byte: a block may end right after a match, as the assembly decoders accept", "loop head tests the cursor against len(src) and leaves to the success return", "every path from the loop head to the success return reads the source first: a block whose last sequence is a match makes the portable decoder read past the end and report an error that the assembly decoders do not")
+}
